@@ -91,7 +91,11 @@ def run(ctx):
         for c, mode, guard, region in acqs:
             n_acq += 1
             key = "acquire:%s:%s" % (bid, mode)
-            if bid not in SITES:
+            from ..owners import for_crate
+            os_ = for_crate(lib).of(bid)
+            if os_ and all(o in SITES and SITES[o][0] == mode for o in os_) and bid not in SITES:
+                res.ok(key, b.where(c.line), "in a helper of %s" % ", ".join(sorted(os_)))
+            elif bid not in SITES:
                 res.bad(key, "new lock acquisition (%s) in %s: not one of the reviewed sites %s" % (c.callee, bid, sorted(SITES)), b.where(c.line))
                 continue
             if SITES[bid][0] != mode:
@@ -113,8 +117,12 @@ def run(ctx):
                 res.bad(k2, "while %s holds the %s guard it reaches %s (via %s): a recursive read blocks behind a queued writer, a "
                             "nested write self-deadlocks" % (bid, mode, chain[-1], " -> ".join(chain)), b.where(c.line))
     res.floor(n_acq, 4, "acquisitions")
+    from ..owners import for_crate as _fc
+    acq_owners = set()
+    for bid in per_body:
+        acq_owners |= set(_fc(lib).of(bid))
     for s in SITES:
-        res.anchor(s in per_body, "lock acquisition in " + s)
+        res.anchor(s in acq_owners, "lock acquisition in " + s)
 
     # ---- atomic update shape
     for bid in (ASSIGN, TRY_ASSIGN):
